@@ -701,6 +701,44 @@ class ParseStream(Stream):
                 yield {**case, "source": cut}
 
 
+# ---- stream deep -------------------------------------------------------------------------------------------------
+class DeepStream(Stream):
+    """Self-referencing partials nested inside d blocks: the context-depth limit should stop them with a Liquid error."""
+
+    name = "deep"
+    has_model = False
+    exhaustive = True
+
+    def cases(self, ctx):
+        return [{"depth": d, "kind": k, "mode": m} for d in range(1, ctx.scale(16, 40)) for k in ("render", "include") for m in MODES]
+
+    def impl(self, case):
+        from liquid import DictLoader, Environment, Mode
+
+        d, kind = case["depth"], case["kind"]
+        body = "{% if true %}" * d + "{% " + kind + " 'rec' %}" + "{% endif %}" * d
+        tol = {"strict": Mode.STRICT, "warn": Mode.WARN, "lax": Mode.LAX}[case["mode"]]
+
+        def go():
+            env = Environment(loader=DictLoader({"rec": body}), tolerance=tol)
+            env.from_string("{% " + kind + " 'rec' %}").render()
+
+        return observe(go)
+
+    def oracle(self, case, obs):
+        if obs["out"] == "leak:RecursionError":
+            return ("RecursionError|partial-depth", "the Python stack ran out before the context depth limit was reached")
+        if obs["out"].startswith("leak:"):
+            return (signature(obs), f"{obs['out'][5:]} reached the caller of render")
+        return None
+
+    def nontrivial(self, case, obs):
+        return obs["out"] != "ok"
+
+    def tags(self, case, obs):
+        return [case["kind"], obs["out"].split(":")[0]]
+
+
 def extra(ctx):
     """Coverage facts about the generated tables."""
     try:
@@ -717,4 +755,4 @@ def extra(ctx):
 
 
 def streams(ctx):
-    return [PrimStream(), FilterStream(), SitesStream(), HandlerStream(), RenderStream(), ParseStream()]
+    return [PrimStream(), FilterStream(), SitesStream(), HandlerStream(), DeepStream(), RenderStream(), ParseStream()]
